@@ -46,6 +46,7 @@ def generate(rng, tier, cls):
     return {'actors': [{'id': 'A1', 'kind': 'dom', 'ops': ops}],
             'schedule': [], 'faults': [],
             'block_size': rng.choice([None, None, 1, 13, 97]),
+            'dom_values': rng.choice([None] * 8 + ['sub', 'same']),
             'via': rng.choice(['from_stream', 'from_stream', 'from_bytes',
                                'shared_reader', 'subclass'])}
 
